@@ -4,6 +4,9 @@ prop="$1"; patch="$2"
 cd /repo || exit 2
 git diff --quiet || { echo "repo not clean"; exit 2; }
 git apply "$patch" || { echo "patch does not apply"; exit 2; }
+# the evidence file committed under /verif must describe the unchanged tree: keep it aside
+cp /verif/evidence/$prop.json /tmp/seedtest_evidence_$prop.json 2>/dev/null
 (cd /verif && ./check "$prop" quick > /tmp/seedtest_$prop.out 2>&1; echo "exit=$?" >> /tmp/seedtest_$prop.out)
 git checkout -- . ; git clean -fdq -- . 2>/dev/null
+[ -f /tmp/seedtest_evidence_$prop.json ] && mv /tmp/seedtest_evidence_$prop.json /verif/evidence/$prop.json
 grep "^VIOLATION\|^  obligation\|exit=\|^C[0-9]*:" /tmp/seedtest_$prop.out | cut -c1-220
